@@ -446,12 +446,16 @@ Proof.
   unfold frame_end, last_schedule. destruct (p_panic pr); [split; reflexivity|].
   destruct (flush_c1 pr) as [H1 H2]. split; [|rewrite <- H2; reflexivity].
   unfold c1 in H1. injection H1 as E1 E2 E3 E4 E5 E6 E7 E8 E9.
-  unfold c1. cbn. congruence.
+  set (fl := flush pr) in *.
+  transitivity (s_client fl, s_server fl, s_next_client fl, s_next_server fl, n_setup fl, p_order fl,
+                p_cond_bit fl, p_tick fl + 1, p_last_run fl); [reflexivity|].
+  congruence.
 Qed.
 Lemma frame_end_cA pr : cA (frame_end pr) = cA pr.
 Proof.
-  destruct (frame_end_c1 pr) as [Hc _]. unfold c1 in Hc. injection Hc as E1 E2 E3 E4 E5 E6 E7 E8 E9.
-  unfold cA. congruence.
+  destruct (frame_end_c1 pr) as [Hc _].
+  exact (f_equal (fun c => (fst (fst (fst (fst (fst (fst (fst (fst c))))))), snd (fst (fst (fst (fst (fst (fst (fst c))))))),
+                            snd (fst (fst (fst (fst c)))), snd (fst (fst (fst c))))) Hc).
 Qed.
 
 Lemma frame_at_cA pr o l : cA (frame_at pr o l) = (default (s_client pr) (s_next_client pr),
